@@ -533,6 +533,37 @@ def rule_ordering(chk):
                    detail_ok='AccelerationEval(...) then SPHCompiler(...).compile()')
 
 
+def rule_stepper_check_scope(chk):
+    """each destination's array is validated against the arguments of *its own* stepper, no more and no less (model run of get_array_declarations with a recording
+    validator): an accumulated union rejects a wall array for lacking what only the fluid's stepper needs (shared with C12: a complete configuration must not be rejected)"""
+    from verif_static import emit as EM, absint as AI
+    IHF = 'pysph/sph/integrator_cython_helper.py'
+    fn = M.find_method(M.py(IHF), 'IntegratorCythonHelper', 'get_array_declarations')
+    try:
+        it = EM.interpreter()
+        calls = []
+
+        def rec(interp, args, kwargs, node, env):
+            names = args[1] if len(args) > 1 else kwargs.get('args')
+            calls.append((args[0], frozenset(names) if isinstance(names, (set, frozenset, list, tuple)) else names))
+            return None
+        st_a = EM.mock(stage1=EM.func('def stage1(self, d_idx, d_x, d_u, dt):\n    pass'))
+        st_b = EM.mock(stage1=EM.func('def stage1(self, d_idx, d_y, d_fx, dt):\n    pass'))
+        st_c = EM.mock(stage1=EM.func('def stage1(self, d_idx, d_x, d_rho, dt):\n    pass'))
+        obj = EM.mock(steppers={'wall': st_b, 'fluid': st_a, 'gas': st_c})
+        types = dict((k, EM.mock(type='double*')) for k in ('d_x', 'd_u', 'd_y', 'd_fx', 'd_rho'))
+        h = EM.instance(it, IHF, 'IntegratorCythonHelper', object=obj, _check_arrays_for_properties=rec, acceleration_eval_helper=EM.mock(known_types=types))
+        EM.call(it, h, 'get_array_declarations', 'stage1')
+        want = {'wall': frozenset(['d_y', 'd_fx']), 'fluid': frozenset(['d_x', 'd_u']), 'gas': frozenset(['d_x', 'd_rho'])}
+        got = dict(calls)
+        chk.decide(got == want and len(calls) == 3, 'stepper-arrays-validated-before-emission', 'each-array-against-its-own-stepper', node=fn, file=IHF, func='get_array_declarations',
+                   detail_bad='for steppers wall(d_y, d_fx), fluid(d_x, d_u), gas(d_x, d_rho) the arrays are validated against %s; expected each against the arguments of its own stepper %s'
+                              % (dict((k, sorted(v) if isinstance(v, frozenset) else v) for k, v in calls), dict((k, sorted(v)) for k, v in want.items())),
+                   detail_ok='model run with three steppers: each destination validated against exactly its own stepper\'s arrays')
+    except (AI.Unsupported, AI.Raised) as e:
+        chk.undecided('stepper-arrays-validated-before-emission', 'each-array-against-its-own-stepper', node=fn, file=IHF, func='get_array_declarations', detail='not interpretable: %s' % e)
+
+
 def main(chk):
     chk.explanation = ('Static rules over the validator and the code generator: the set of array names for which '
                        'pointer set-up is emitted must be covered by the set validated at construction time '
@@ -544,6 +575,7 @@ def main(chk):
     rule_no_shortcut(chk)
     rule_message(chk)
     rule_steppers(chk)
+    rule_stepper_check_scope(chk)
     rule_ordering(chk)
     chk.unit('files', [AE, EQ, IH, AH, SC, ITPL, 'pysph/tools/sph_evaluator.py', 'pysph/tools/interpolator.py'])
     chk.floor('obligations', len(chk.obs), 20)
